@@ -188,7 +188,15 @@ def project(tree) -> Tuple[M.Module, List[str]]:
     problems: List[str] = []
     if tree.name != '':
         problems.append("module namespace is named %r" % tree.name)
-    return M.Module(p_content(tree, problems, ())), problems
+    try:
+        return M.Module(p_content(tree, problems, ())), problems
+    except (AttributeError, TypeError, KeyError, IndexError) as e:
+        # a node of another kind than the documented tree holds in that position
+        raise MalformedTree('%s: %s' % (type(e).__name__, e)) from e
+
+
+class MalformedTree(Exception):
+    """The parse tree cannot be read as the documented structure."""
 
 
 def parse(text: str):
